@@ -650,6 +650,44 @@ pub fn inplace_entry_points(buf: &[u8]) -> Value {
     })
 }
 
+thread_local! {
+    static SHIFTED: std::cell::RefCell<Vec<u8>> = std::cell::RefCell::new(Vec::new());
+}
+
+/// The same bytes at other memory positions: a receiver's buffer does not always start at the
+/// beginning of an allocation (a slice past the previous header, a ring buffer, a field of a larger
+/// struct).  The bytes are parsed in place (no private copies) at a 16-byte aligned address and
+/// at every other residue modulo 16 of the start address (a few of them for long buffers); the
+/// observations that differ from the aligned one are returned with their shift.  On a crate whose
+/// result depends on the bytes alone the list is empty.
+pub fn moved_observations(buf: &[u8]) -> Vec<(usize, Value)> {
+    const ALL: [usize; 15] = [1, 2, 3, 4, 5, 6, 7, 8, 9, 10, 11, 12, 13, 14, 15];
+    const FEW: [usize; 4] = [1, 3, 7, 9];
+    if buf.is_empty() || buf.len() > (1 << 20) {
+        return Vec::new();
+    }
+    let shifts: &[usize] = if buf.len() <= 4096 { &ALL } else { &FEW };
+    SHIFTED.with(|s| {
+        let mut v = s.borrow_mut();
+        let need = buf.len() + 32;
+        if v.len() < need {
+            v.resize(need, 0);
+        }
+        let off = (16 - (v.as_ptr() as usize % 16)) % 16;
+        let mut out = Vec::new();
+        v[off..off + buf.len()].copy_from_slice(buf);
+        let base = inplace_entry_points(&v[off..off + buf.len()]);
+        for &k in shifts {
+            v[off + k..off + k + buf.len()].copy_from_slice(buf);
+            let o = inplace_entry_points(&v[off + k..off + k + buf.len()]);
+            if o != base {
+                out.push((k, o));
+            }
+        }
+        out
+    })
+}
+
 /// All six entry points on one buffer.
 pub fn all_entry_points(buf: &[u8], full: bool) -> Value {
     let na = json!({"k": "na"});
